@@ -109,16 +109,18 @@ Definition request_nfields (req : obytes) : Z :=
 
 (* what is known about one cookie of a reply: its bytes, and - opened the way the
    server opens cookies, with the keys the provider holds as valid now - the
-   session keys inside (None: no currently valid key opens it) *)
-Record cookie_facts := { cf_bytes : obytes; cf_keys : option (obytes * obytes) }.
+   session keys inside (None: no currently valid key opens it), and the identifier of
+   the server key it is sealed under *)
+Record cookie_facts := { cf_bytes : obytes; cf_keyid : Z; cf_keys : option (obytes * obytes) }.
 
 (* the reply to a request: fits, is well formed (the request's unique identifier,
    authenticator last, nothing else in the clear), authenticates under the S2C key
    ([auth_ok], recomputed with AES-SIV over the bytes before the authenticator),
    carries one cookie per cookie or placeholder of the request - fewer only as many
-   as fit -, all new, all opening under a valid key to the session keys *)
+   as fit -, all new, all opening under a valid key to the session keys, all sealed
+   under the key that is the servers' current one at that time ([cur]) *)
 Definition reply_ok (req reply : obytes) (auth_ok : bool) (cookies : list cookie_facts)
-  (kc2s ks2c : obytes) (known : list obytes) : bool :=
+  (kc2s ks2c : obytes) (known : list obytes) (cur : Z) : bool :=
   (olen reply <=? o_max_packet) && auth_ok &&
   match fields_of reply, request_uid req with
   | Some fs, Some u =>
@@ -133,6 +135,7 @@ Definition reply_ok (req reply : obytes) (auth_ok : bool) (cookies : list cookie
       end &&
       distinct (map cf_bytes cookies) &&
       forallb (fun c => negb (mem (cf_bytes c) known)) cookies &&
+      forallb (fun c => cf_keyid c =? cur) cookies &&
       forallb (fun c => match cf_keys c with
                         | Some (a, b) => bytes_eqb a kc2s && bytes_eqb b ks2c
                         | None => false
@@ -153,7 +156,9 @@ Record step_obs := {
   so_intact : bool;               (* that reply reached the client unchanged *)
   so_rekeyed : bool;              (* a key exchange completed during this call *)
   so_pool_after : list obytes;    (* the client's pool after the call *)
-  so_c2s : obytes; so_s2c : obytes   (* the client's session keys after the call *)
+  so_c2s : obytes; so_s2c : obytes;  (* the client's session keys after the call *)
+  so_cur_key : Z;                 (* identifier of the servers' current key right after the reply *)
+  so_forged : list obytes         (* cookies of forged datagrams that reached the client during the call *)
 }.
 
 Record ostate := {
@@ -186,6 +191,12 @@ Definition step_ok (s : ostate) (o : step_obs) : bool :=
         negb (mem c (so_pool_after o)) &&
         (* nothing in the pool has been sent before; no cookie twice in the pool *)
         forallb (fun x => negb (mem x (os_sent s))) (so_pool_after o) && distinct (so_pool_after o) &&
+        (* every cookie in the pool was there before, came with this call's key exchange (never
+           seen before), or was carried inside the authenticated reply; none is forged *)
+        forallb (fun x => negb (mem x (so_forged o)) &&
+                          (mem x (os_pool s) ||
+                           (so_intact o && mem x (map cf_bytes (so_reply_cookies o))) ||
+                           (so_rekeyed o && negb (mem x (os_known s))))) (so_pool_after o) &&
         (* pool bounds *)
         (olen (so_pool_after o) <=? o_pool_size) &&
         (if so_intact o then (level <=? olen (so_pool_after o)) && (so_served o) else true) &&
@@ -193,7 +204,7 @@ Definition step_ok (s : ostate) (o : step_obs) : bool :=
         (if so_forwarded o && so_openable o then so_served o else true) &&
         (if so_served o
          then reply_ok (so_req o) (so_reply o) (so_reply_auth o) (so_reply_cookies o) (so_c2s o) (so_s2c o)
-                (c :: os_known s)
+                (c :: os_known s) (so_cur_key o)
          else true)
     end
   else
